@@ -106,13 +106,28 @@ class ScriptedRunner(SimulationRunner):
         self.pname = pname
         super().__init__(read_command_line_args=False)
         self.rep_max = cfg["rep_max"]
-        for name in sorted(cfg["fixed"]):
-            self.params.add(name, cfg["fixed"][name])
-        for name in sorted(cfg["unpacked"]):
-            spec = cfg["unpacked"][name]
-            vals = list(spec["values"])
-            self.params.add(name, np.array(vals) if spec.get("array") else vals)
-            self.params.set_unpack_parameter(name)
+        # parameters are added (and marked for unpacking) in the order the plan says: the documented
+        # variation order is by SORTED name, whatever the insertion order was
+        order = cfg.get("order") or (sorted(cfg["fixed"]) + sorted(cfg["unpacked"]))
+        for name in order:
+            if name in cfg["unpacked"]:
+                spec = cfg["unpacked"][name]
+                vals = list(spec["values"])
+                self.params.add(name, np.array(vals) if spec.get("array") else vals)
+            elif name in cfg["fixed"]:
+                self.params.add(name, cfg["fixed"][name])
+        for name in (cfg.get("unpack_order") or sorted(cfg["unpacked"])):
+            if name in cfg["unpacked"]:
+                self.params.set_unpack_parameter(name)
+        for name in cfg["fixed"]:
+            if name not in order:
+                self.params.add(name, cfg["fixed"][name])
+        for name in cfg["unpacked"]:
+            if name not in order:
+                spec = cfg["unpacked"][name]
+                self.params.add(name, np.array(spec["values"]) if spec.get("array") else list(spec["values"]))
+            if name not in (cfg.get("unpack_order") or sorted(cfg["unpacked"])):
+                self.params.set_unpack_parameter(name)
         self.update_progress_function_style = None
         if cfg.get("results_name") is not None:
             self.set_results_filename(cfg["results_name"] + cfg.get("ext", ""))
@@ -624,6 +639,8 @@ def execute(plan, record_last=False, record_lines=False):
             for v in pred["idxs"]:
                 if v in pred["per_v"] and pred["per_v"][v]["loaded"]:
                     w.loaded_in_v[v] = True
+            if same and k > 0 and had_fault:
+                bump(w.probes, "in_process_restart_on_the_same_runner")
             serial_before = w.serial
             pre_states = [file_state_key(d) for d in durable]
             rep = w.run_incarnation(k, inc, last)
